@@ -182,6 +182,39 @@ func runC19(c *an.Ctx) {
 	}
 	inmemRules(c)
 	multiRules(c)
+	// a file-system loader answers from the file system as it is when it is asked: its constructor only
+	// records where to look — it does not consult the file system (resolving a symlinked root once, or
+	// making the root absolute against the working directory of that moment, freezes an answer)
+	nCtor := 0
+	for _, f := range p.Units() {
+		if f.Body == nil || f.Sig == nil || f.Sig.Recv() != nil || f.Sig.Results().Len() == 0 || f.Lit != nil {
+			continue
+		}
+		rt := an.TypeName(f.Sig.Results().At(0).Type())
+		if !(strings.HasSuffix(rt, "OSFileSystemLoader") || strings.HasSuffix(rt, "embedFileSystemLoader") || strings.HasSuffix(rt, "httpFileSystemLoader") || (strings.Contains(rt, "Loader") && strings.Contains(f.Name, "NewLoader") && !strings.Contains(f.Name, "multi."))) {
+			continue
+		}
+		finfo := f.Info()
+		nCtor++
+		var fsCall *ast.CallExpr
+		an.InspectOwn(f, func(n ast.Node) bool {
+			if call, ok := n.(*ast.CallExpr); ok && fsCall == nil {
+				name := an.CalleeName(finfo, call)
+				switch {
+				case strings.HasPrefix(name, "os."), strings.HasPrefix(name, "ioutil."), strings.HasPrefix(name, "fs."),
+					name == "filepath.EvalSymlinks", name == "filepath.Abs", name == "filepath.Glob", name == "filepath.Walk", name == "filepath.WalkDir":
+					fsCall = call
+				}
+			}
+			return true
+		})
+		if fsCall != nil {
+			c.Bad("C19.dir", f.Name+"/constructor-records-only", fsCall.Pos(), nil, "%s consults the file system (%s) when the loader is built: what it finds then is frozen into the loader, which no longer reports the files below its root as they are when Exists/Open are asked", f.Name, an.Str(fsCall.Fun))
+		} else {
+			c.OK("C19.dir", f.Name+"/constructor-records-only", f.Pos(), "the constructor only records the root")
+		}
+	}
+	c.Expect("C19.dir", "constructors of file-system loaders", nCtor, 2)
 }
 
 func backingAccesses(p *an.Prog, f *an.Fn) []backing {
